@@ -28,7 +28,7 @@ FOCUS = {
   * PARTIAL FIXES AND GUARDS: a guard or fast path (`if all(...)`, `if len(x) == 1`, `if np.allclose(...)`, `try/except` fallback, early `return`) that is right for almost every input but takes the wrong branch for a narrow class of valid inputs.""",
 }[focus]
 prev_txt = ('\n\nEarlier helpers already produced the following changes for this property. Do NOT repeat these ideas or close variants of them (same line of code, same mechanism); find different ones:\n' + '\n'.join(prev)) if prev else ''
-print(f"""You are helping to evaluate a verification effort for the open-source Python library GEMDAT (analysis of molecular-dynamics trajectories for ion diffusion, built on pymatgen). You have your own scratch git worktree of the repository at {wt} (source under {wt}/src/gemdat, tests under {wt}/tests). Work ONLY inside {wt} (and, for temporary files, {wt}/.scratch). Do not read or touch /repo, /verif or any other directory; do not commit anything.
+print(f"""You are helping to evaluate a verification effort for the open-source Python library GEMDAT (analysis of molecular-dynamics trajectories for ion diffusion, built on pymatgen). You have your own scratch git worktree of the repository at {wt} (source under {wt}/src/gemdat, tests under {wt}/tests). Work ONLY inside {wt} (and, for temporary files, {wt}/.scratch). Do not read or touch /repo, /verif or any other directory; do not commit anything and NEVER use `git stash` (the stash is shared with other people's worktrees of the same repository): switch between patched and unpatched states only with `git diff > file`, `git checkout -- .` and `git apply file`.
 
 This semantic property of GEMDAT is supposed to hold:
 
